@@ -493,7 +493,11 @@ where
             }
             Pattern::Tuple { ref elems, .. } => {
                 let (_, field) = self.select_spanned(&**elems, |elem| elem.span);
-                self.visit_pattern(field.unwrap());
+                // `elems` is empty for the unit pattern `()`
+                match field {
+                    Some(field) => self.visit_pattern(field),
+                    None => self.found = MatchState::Empty,
+                }
             }
             Pattern::Ident(_) | Pattern::Literal(_) | Pattern::Error => {
                 self.found = if current.span.containment(self.pos) == Ordering::Equal {
